@@ -7,6 +7,7 @@ import array
 import collections
 import functools
 import hashlib
+import io
 import os
 import pickle
 import sys
@@ -512,7 +513,16 @@ class DiskCache(_CacheBase):
 def _pickle_key(obj: Any) -> str:
     # Based on the implementation of `diskcache` although that also
     # does pickle_tools.optimize which we don't need here
-    data = pickle.dumps(obj, protocol=pickle.HIGHEST_PROTOCOL)
+    # The pickler's memo makes the stream depend on which parts of `obj` are the *same* object:
+    # the equal keys `(s, s)` and `(s, copy_of_s)` must give the same file name, so pickle without memo.
+    buffer = io.BytesIO()
+    pickler = pickle.Pickler(buffer, protocol=pickle.HIGHEST_PROTOCOL)
+    pickler.fast = True
+    try:
+        pickler.dump(obj)
+        data = buffer.getvalue()
+    except (ValueError, RecursionError):  # self-referential key: needs the memo
+        data = pickle.dumps(obj, protocol=pickle.HIGHEST_PROTOCOL)
     return hashlib.md5(data).hexdigest()  # noqa: S324
 
 
